@@ -93,6 +93,10 @@ class PydanticModels:
                 d.member, d.vals, d.n, d.keys, d.pos = e.member, e.vals, e.n, e.keys, e.pos
             ex.assumed.add("model:pydantic.create_model('Model') is a new model class without field")
             return ref
+        if name == "pydantic.create_model" and len(args) == 1 and set(kwargs) == {"__base__"} and _model(ex, kwargs["__base__"]) is not None:
+            # a subclass of an existing model: NOTHING is assumed about the fields it inherits nor about the schema pydantic builds for it
+            # (PydanticGrammar._copy assigns model_fields explicitly and raises the rebuild flag)
+            return TObj(PYD_MODEL).fresh(st, "submodel")
         if name == "pydantic.fields.FieldInfo" and not args and set(kwargs) == {"annotation"}:
             from .plug_grammars import as_val
 
@@ -119,6 +123,8 @@ class PydanticModels:
         return NotImplemented
 
     def pyobj_attr(self, ex, ref, o, attr, lineno):
+        if o.cls == PYD_MODEL and attr == "__name__":
+            return SV(ex.st.fresh_const("model_name", Str), TStr)
         if o.cls == PYD_MODEL and attr in ("model_rebuild", "model_validate", "model_json_schema"):
             return BoundMethod(ref, None, f"pydmodel.{attr}")
         return NotImplemented
